@@ -892,7 +892,8 @@ impl CompressionBmi2Dispatcher {
                     let mut remaining_mask = mask;
                     
                     while remaining_mask != 0 {
-                        if packed_data & remaining_mask & (!remaining_mask + 1) != 0 {
+                        // symbols are u32: bits beyond the 32nd mask bit are dropped, as on the PEXT path
+                        if bit_idx < 32 && packed_data & remaining_mask & (!remaining_mask + 1) != 0 {
                             result |= 1u32 << bit_idx;
                         }
                         bit_idx += 1;
